@@ -97,6 +97,10 @@ def strain_field(kind, v):
     elif kind == "int":            # integer dtype
         e = numpy.array([[1, 1, 2], [2, 3, 4], [5, 3, 1], [1, 2, 2]][:n] if n <= 4 else [[1, 1, 2]] * n, dtype=int)
         return e
+    elif kind == "int-equal":      # equal axial strains given as integers, magnitude varying with volume
+        return numpy.array([[2, 2, 2], [1, 1, 1], [3, 3, 3], [2, 2, 2], [5, 5, 5]][:n] if n <= 5 else [[2, 2, 2]] * n, dtype=int)
+    elif kind == "equal-varying":  # equal axial strains whose common magnitude varies with volume (un-normalised)
+        return numpy.outer(1.0 + 0.5 * numpy.arange(n), [1.0, 1.0, 1.0])
     elif kind == "raw":            # positive axial strains that do not sum to 1
         e = numpy.tile([0.9, 1.0, 1.2], (n, 1))
         e[-1] = [2.0, 3.0, 7.0]
